@@ -138,6 +138,18 @@ fn run_ext<B: Fld, E: FieldElement<BaseField = B>, H: ElementHasher<BaseField = 
                     let k = ctx.poly_eval(&pk, &ctx.pow(x, (n / cycle) as u128));
                     ctx.sub(&nxt[i], &ctx.add(&ctx.mul(&cur[i], &k), &[*c as u128 % p, 0, 0]))
                 },
+                Rule::Periodic2 { cycle_a, cycle_b } => {
+                    // two periodic columns of different cycle lengths, each the interpolant over its own roots of unity
+                    let col_at = |cycle: usize| {
+                        let w = glue::root_of_unity::<B>(cycle.ilog2());
+                        let xs: Vec<El> = (0..cycle).map(|i| [powm(w, i as u128, p), 0, 0]).collect();
+                        let ys: Vec<El> = (0..cycle).map(|i| [periodic_value(i, cycle), 0, 0]).collect();
+                        let pk = ctx.poly_interpolate(&xs, &ys);
+                        ctx.poly_eval(&pk, &ctx.pow(x, (n / cycle) as u128))
+                    };
+                    let (ka, kb) = (col_at(*cycle_a), col_at(*cycle_b));
+                    ctx.sub(&nxt[i], &ctx.add(&ctx.mul(&cur[i], &ka), &kb))
+                },
                 Rule::Rot { order } => ctx.sub(&nxt[i], &ctx.mul_base(&cur[i], glue::root_of_unity::<B>(order.ilog2()))),
                 Rule::FibA => ctx.sub(&nxt[i], &cur[i + 1]),
                 Rule::FibB => ctx.sub(&nxt[i], &ctx.add(&cur[i - 1], &cur[i])),
